@@ -16,11 +16,13 @@ import json
 import os
 
 from harness import common as C
+from harness import xcheck as X
 from harness import statslib as S
 
 TRUSTED = [
     "Coq 8.16.1 kernel + coqc (vm_compute only for the closed Example and the refutation witness); no native_compute",
-    "extraction: ExtrOcamlBasic only, no Extract Constant; ocaml/driver.ml s-expression I/O",
+    "extraction: ExtrOcamlBasic only, no Extract Constant; ocaml/driver.ml s-expression I/O (20 sampled pqref conversations per run are "
+    "re-evaluated by the kernel: extract_agrees_k, harness/xcheck.py)",
     "pandas Series.max()/min() (skipna) and Index.max()/min() return a largest/smallest non-null non-NaN element under the "
     "dtype's order, and that order agrees with the Parquet ordering of the physical value the cell is stored as (glue; "
     "exercised on every generated column by the oracle, not modelled)",
@@ -455,7 +457,7 @@ def run(ctx):
     bad = C.hygiene()
     ctx.obligation("hygiene: no Admitted/Axiom/Parameter/... in coq/", not bad, "; ".join(bad))
     C.use_shadow()
-    pq = C.Pqref()
+    pq = X.RecPqref(ctx.rng)
     rng = ctx.rng
     ctx.rule = ("files: 2-6 columns of random kinds (every numpy/nullable int width incl. unsigned >= 2^63, bool, float16/32/64 with "
                 "NaN/+-inf/-0.0, datetime ns/us/ms/s naive, tz-aware and INT96, timedelta, str with code points beyond the BMP, object "
@@ -498,6 +500,7 @@ def run(ctx):
             shutil.rmtree(path, ignore_errors=True)
         else:
             os.unlink(path)
+    X.kernel_crosscheck(ctx, pq)
     pq.close()
     ctx.extra["files_examined"] = done
     ctx.extra["write_errors"] = werr
